@@ -50,7 +50,7 @@ def main():
     props = a[a.index('--props') + 1].split(',') if '--props' in a else None
     jobs = int(a[a.index('--jobs') + 1]) if '--jobs' in a else 3
     claimed = {c['property_id'] for c in json.load(open(ROOT + '/MANIFEST.json'))['checks']}
-    seeds = sorted(d for d in os.listdir(ROOT + '/seeded') if os.path.isdir(ROOT + '/seeded/' + d))
+    seeds = sorted(d for d in os.listdir(ROOT + '/seeded') if os.path.isdir(ROOT + '/seeded/' + d) and not d.startswith('_'))
     work = []
     for s in seeds:
         if only and s not in only:
